@@ -54,6 +54,8 @@ pub struct Case {
     pub seed: u64,
 }
 
+pub const SIG_STALE: &str = "C12/backlog-of-a-closed-stream-delivered-after-the-reopen-behind-a-gap";
+
 fn size_of(class: u8, max_sender: usize, max_receiver: usize) -> usize {
     match class {
         0 => 8,
@@ -471,7 +473,15 @@ fn run_case(c: &Case) -> CaseResult {
         }
         // receiver side
         let mut received: HashMap<bool, Vec<u64>> = HashMap::new();
+        // the receiver's own count of closed streams with this peer at the moment each tag was delivered
+        let mut delivered_in_epoch: HashMap<u64, u32> = HashMap::new();
+        let mut r_epoch = 0u32;
         for o in history.iter().filter(|o| o.node == r) {
+            if let ObsKind::NotifClosed { peer } = &o.kind {
+                if *peer == peers[s] {
+                    r_epoch += 1;
+                }
+            }
             if let ObsKind::NotifReceived { peer, data } = &o.kind {
                 if *peer != peers[s] {
                     continue;
@@ -494,6 +504,7 @@ fn run_case(c: &Case) -> CaseResult {
                 let sync = (tag >> 48) & 1 == 1;
                 ensure!(tag >> 56 == s as u64 + 1, "C12/notification-corrupted", "node {r} received tag {tag:#x} that node {s} never sent");
                 received.entry(sync).or_default().push(tag);
+                delivered_in_epoch.insert(tag, r_epoch);
                 delivered_total += 1;
                 delivered_bytes += data.len();
             }
@@ -529,9 +540,12 @@ fn run_case(c: &Case) -> CaseResult {
             for (t, e) in &acc {
                 if !got.contains(t) {
                     if let Some(last) = last_delivered.get(e) {
+                        // a later notification of the same (sender-side) open period that the receiver's user was handed only
+                        // after it had seen that stream closed: backlog of the closed stream delivered under the reopened one
+                        let stale = delivered_in_epoch.get(last).map(|re| *re > *e).unwrap_or(false);
                         ensure!(
                             *t > *last,
-                            "C12/notification-skipped-within-open-period",
+                            if stale { SIG_STALE } else { "C12/notification-skipped-within-open-period" },
                             "node {s} -> {r} {mode}: tag {:#x} was accepted and never delivered although the later tag {:#x}, accepted in the same open period, was ({} accepted, {} delivered); config sync_channel {} async_channel {}",
                             t,
                             last,
